@@ -227,3 +227,63 @@ def run_preempt(docA, docB, ks, docC=None):
         return {"results": results, "events": rec.events, "calls_A": count["n"], "ks": list(ks)}
     finally:
         shutil.rmtree(tmp, ignore_errors=True)
+
+
+def run_nested(docA, docB, kA, kB):
+    """Two preemptions: thread A stops at its kA-th library call; thread B starts and stops at its kB-th library call;
+    A runs to completion; then B runs to completion.  (A window that one thread opens and closes inside a single
+    call sequence - remove an entry, work, put it back - is only visible to another thread that runs while the first
+    is parked inside it.)"""
+    tmp = tempfile.mkdtemp(prefix="rtflite-verif-sched-")
+    names = {"A": docA, "B": docB}
+    for t in names:
+        os.makedirs(os.path.join(tmp, t), exist_ok=True)
+    results = {}
+    b_paused, b_resume, b_done = threading.Event(), threading.Event(), threading.Event()
+    cnt = {"A": 0, "B": 0}
+    try:
+        docs = build_docs(names, tmp)
+
+        def tracerB(frame, event, arg):
+            if event == "call" and _is_lib(frame.f_code.co_filename):
+                cnt["B"] += 1
+                if cnt["B"] == kB:
+                    b_paused.set()
+                    b_resume.wait(120)
+            return None
+
+        def bodyB():
+            sys.settrace(tracerB)
+            try:
+                _encode_thread("B", docs["B"], results)
+            finally:
+                sys.settrace(None)
+                b_done.set()
+                b_paused.set()
+        thB = threading.Thread(target=bodyB)
+
+        def tracerA(frame, event, arg):
+            if event == "call" and _is_lib(frame.f_code.co_filename):
+                cnt["A"] += 1
+                if cnt["A"] == kA:
+                    thB.start()
+                    b_paused.wait(120)       # B is parked at its kB-th call (or has finished)
+            return None
+
+        def bodyA():
+            sys.settrace(tracerA)
+            try:
+                _encode_thread("A", docs["A"], results)
+            finally:
+                sys.settrace(None)
+        thA = threading.Thread(target=bodyA)
+        thA.start()
+        thA.join(180)
+        if not thB.is_alive() and not b_done.is_set() and cnt["A"] < kA:
+            thB.start()                       # A never reached kA: run B afterwards
+        b_resume.set()
+        thB.join(180)
+        return {"results": results, "events": [], "calls_A": cnt["A"], "calls_B": cnt["B"], "ks": [kA, kB]}
+    finally:
+        b_resume.set()
+        shutil.rmtree(tmp, ignore_errors=True)
